@@ -51,6 +51,11 @@ Theorem C12_workers : forall cs ord evs s,
 Proof. exact C12_workers_thm. Qed.
 Print Assumptions C12_workers.
 
+(* with ordered shutdown off the monitor constrains nothing: the hypotheses (W), (S), (N) only matter for ord = true *)
+Theorem C12_unordered : forall cs evs, holds_C12 false cs evs = true.
+Proof. exact C12_unordered_thm. Qed.
+Print Assumptions C12_unordered.
+
 (* the monitor, read position by position: at a stop signal for i, for a shutdown in progress whose snapshot
    contains i, a member j of the snapshot whose configuration depends on i's name has no command alive *)
 Theorem C12_declarative : forall cs evs, holds_C12 true cs evs = true ->
